@@ -69,6 +69,27 @@ class AssetFuture(Asset):
     margin_requirement = property(lambda s: s._mr)
 
 
+class Listing(AbstractContract):
+    """A value-object contract with its OWN consistent equality and hash (ticker + venue, the way a frozen dataclass
+    does it): it neither equals nor hashes like its symbol string."""
+    cash_requirement = 1.0
+    margin_requirement = 0.0
+
+    def __init__(self, ticker, venue, multiplier=1.0):
+        self.ticker = ticker
+        self.venue = venue
+        self._m = float(multiplier)
+
+    symbol = property(lambda s: "%s@%s" % (s.ticker, s.venue))
+    multiplier = property(lambda s: s._m)
+
+    def __eq__(self, other):
+        return isinstance(other, Listing) and (self.ticker, self.venue) == (other.ticker, other.venue)
+
+    def __hash__(self):
+        return hash((self.ticker, self.venue, "listing"))
+
+
 def contract_pool(rng):
     """A shuffled mix of built-in and user-defined contracts."""
     pool = [
@@ -77,7 +98,7 @@ def contract_pool(rng):
         ES(2019, 6), ZN(2019, 9), NK(2019, 12), ZQ(2019, 9),
         UserFuture("F1", rng.choice([1, 5, 250]), rng.choice([0.01, 0.3, 1.0])),
         UserFuture("F2", 2.5, 0.5),
-        UserSpot("U3", rng.choice([1.0, 3.0, 0.5])), AssetFuture("AF", rng.choice([1, 20]), rng.choice([0.05, 0.4])),
+        UserSpot("U3", rng.choice([1.0, 3.0, 0.5])), Listing("VOD", rng.choice(["LSE", "XETRA"]), rng.choice([1.0, 2.0])), AssetFuture("AF", rng.choice([1, 20]), rng.choice([0.05, 0.4])),
     ]
     rng.shuffle(pool)
     return pool
